@@ -81,7 +81,7 @@ def read_verdicts(dirs):
                     m = DIV.match(line)
                     if m:
                         cur = {"seed": m.group(1), "step": int(m.group(2)), "what": m.group(3), "ev": m.group(4),
-                               "impl": m.group(5), "model": m.group(6), "events": []}
+                               "impl": m.group(5), "model": m.group(6), "events": [], "dir": d}
                         divs.append(cur)
                 elif line.startswith("  EV ") and cur is not None:
                     cur["events"].append(line[5:])
@@ -124,6 +124,22 @@ def sample_history(dirs, max_lines=40):
     return []
 
 
+def replay_history(prop, events, timeout=600):
+    """re-execute a stored history (list of event texts, the "history" of a replay JSON) against the
+    real broker (`broker replay`) and the extracted model (broker_driver).  The binaries must be
+    built (build()).  -> (dir, rc, combined output, ok_histories, steps, divergences)"""
+    d = workdir(prop, "replay")
+    ev = os.path.join(d, "events.txt")
+    with open(ev, "w", encoding="utf-8") as f:
+        for e in events:
+            f.write(e.strip() + "\n")
+    rc, out, _ = core.sh(f"{core.harness_bin('broker')} replay {d} {ev}"
+                         f" && (ulimit -s unlimited 2>/dev/null || ulimit -s 1000000; "
+                         f"{os.path.join(core.BUILD, 'broker_driver')} {d}/trace.txt {d}/verdict.txt)", timeout=timeout)
+    ok, steps, divs = read_verdicts([d])
+    return d, rc, out, ok, steps, divs
+
+
 def classes(what):
     """property ids a divergence is attributed to: 'C05+C12:outputs-differ(..)' -> {'C05','C12'}"""
     head = what.split(":", 1)[0]
@@ -143,12 +159,14 @@ def correspondence(o, prop, tier, seed, mixes, sizes):
     mine = [d for d in divs if prop in classes(d["what"]) or d["what"].startswith(("DRIVER", "HARNESS"))]
     other = [d for d in divs if d not in mine]
     mine.sort(key=lambda d: d["step"])
+    mix_of = {d: mixes[i % len(mixes)] for i, d in enumerate(dirs)}
     for d in mine[:50]:
         if d["what"].startswith(("DRIVER", "HARNESS")):
             o.obligation_broken("broker correspondence machinery: " + d["what"], json.dumps(d)[:3000])
         else:
             o.violation(d["what"], {"history": d["events"], "failing_step": d["step"], "event": d["ev"],
-                                    "impl_output": d["impl"], "model_output": d["model"], "history_seed": d["seed"]})
+                                    "impl_output": d["impl"], "model_output": d["model"], "history_seed": d["seed"],
+                                    "mix": mix_of.get(d.get("dir"), "?")})
     st = merge_stats(dirs)
     distinct = len({k for k in st["kinds"]})
     o.coverage.update({
